@@ -23,6 +23,7 @@ import (
 	healthpb "google.golang.org/grpc/health/grpc_health_v1"
 	"google.golang.org/protobuf/proto"
 	"google.golang.org/protobuf/reflect/protoreflect"
+	"google.golang.org/protobuf/types/known/apipb"
 	lhealth "larking.io/health"
 	"larking.io/larking"
 
@@ -62,6 +63,9 @@ type CfgCase struct {
 	// Via: how the services reach the mux on the service-config side (see
 	// buildSCVia); the annotation side is always registered locally.
 	Via string `json:"via,omitempty"`
+	// Rest: what the configuration holds besides its HTTP rules (see
+	// decorate); none of it has a say in which rule binds where.
+	Rest string `json:"rest_of_config,omitempty"`
 }
 
 // modelBinds is the reference: which methods a selector covers.
@@ -129,7 +133,32 @@ func buildSC(perMethod map[int][]RuleSpec, cfg []CfgRule) (*scBuilt, error) {
 // reflection); "conn-twice-drop-first|second" registers two back-ends for
 // them and drops one again; "conn-refresh" registers the same connection
 // twice.
-func buildSCVia(perMethod map[int][]RuleSpec, cfg []CfgRule, via string) (*scBuilt, error) {
+// decorate fills the parts of a service configuration that are not HTTP
+// rules, as real service.yaml files do.
+func decorate(sc *serviceconfig.Service, rest string, own ...string) {
+	switch rest {
+	case "":
+		return
+	case "lists-other-apis":
+		sc.Apis = []*apipb.Api{{Name: "some.other.Interface"}, {Name: "grpc.reflection.v1.ServerReflection"}}
+	case "lists-first-own-api":
+		if len(own) > 0 {
+			sc.Apis = []*apipb.Api{{Name: own[0]}}
+		}
+	case "lists-all-own-apis":
+		for _, o := range own {
+			sc.Apis = append(sc.Apis, &apipb.Api{Name: o})
+		}
+	}
+	sc.Name = "verif.example.com"
+	sc.Title = "Verif API"
+	sc.Documentation = &serviceconfig.Documentation{Summary: "nothing that concerns routing"}
+	sc.Usage = &serviceconfig.Usage{Rules: []*serviceconfig.UsageRule{{Selector: "*", AllowUnregisteredCalls: true}}}
+}
+
+var c19Rests = []string{"lists-other-apis", "lists-first-own-api", "lists-all-own-apis"}
+
+func buildSCVia(perMethod map[int][]RuleSpec, cfg []CfgRule, via string, rest ...string) (*scBuilt, error) {
 	c19seq++
 	byPkg := map[string]*vschema.File{}
 	var pkgs []string
@@ -188,7 +217,17 @@ func buildSCVia(perMethod map[int][]RuleSpec, cfg []CfgRule, via string) (*scBui
 		}
 		var opt larking.MuxOption
 		if pi := mon.Catch(func() {
-			opt = larking.ServiceConfigOption(&serviceconfig.Service{Http: &annotations.Http{Rules: rules}})
+			sc := &serviceconfig.Service{Http: &annotations.Http{Rules: rules}}
+			if len(rest) > 0 {
+				var own []string
+				for _, fd := range fds {
+					for i := 0; i < fd.Services().Len(); i++ {
+						own = append(own, string(fd.Services().Get(i).FullName()))
+					}
+				}
+				decorate(sc, rest[0], own...)
+			}
+			opt = larking.ServiceConfigOption(sc)
 		}); pi != nil {
 			out.panic = pi
 			return out, nil
@@ -297,7 +336,7 @@ func execCfg(r *mon.Run, c *CfgCase, rng *rand.Rand) {
 	if c.Own != nil {
 		own = map[int][]RuleSpec{c.OwnMethod: {*c.Own}}
 	}
-	B, err := buildSCVia(own, c.Rules, c.Via)
+	B, err := buildSCVia(own, c.Rules, c.Via, c.Rest)
 	if err != nil {
 		r.Inconclusive("harness: " + err.Error())
 		return
@@ -340,6 +379,9 @@ func execCfg(r *mon.Run, c *CfgCase, rng *rand.Rand) {
 		}
 		if c.Via != "" {
 			which += ":via-" + c.Via
+		}
+		if c.Rest != "" {
+			which += ":config-" + c.Rest
 		}
 		r.Violate("registration-differs:"+which+":"+selClass, fmt.Sprintf("annotations: %v; service config: %v", A.err, B.err), c)
 		return
@@ -384,6 +426,9 @@ func execCfg(r *mon.Run, c *CfgCase, rng *rand.Rand) {
 				if c.Via != "" {
 					sk += ":via-" + c.Via
 				}
+				if c.Rest != "" {
+					sk += ":config-" + c.Rest
+				}
 				r.Violate("selector:"+cls+":"+sk+fmt.Sprintf(":model-binds-%d", min(len(binds), 2)),
 					fmt.Sprintf("selector %q (model binds %d methods): %s %s -> annotations [%s], service config [%s]", cr.Selector, len(binds), verb, in.Path(), oa, ob), c)
 				return
@@ -403,6 +448,9 @@ func execCfg(r *mon.Run, c *CfgCase, rng *rand.Rand) {
 		}
 		if c.Via != "" {
 			sk += ":via-" + c.Via
+		}
+		if c.Rest != "" {
+			sk += ":config-" + c.Rest
 		}
 		r.Distinct(fmt.Sprintf("%s:binds%d:depth%d:%s", sk, min(len(binds), 2), strings.Count(cr.Selector, "."), t.Shape()))
 	}
@@ -455,6 +503,9 @@ func RunC19(r *mon.Run) {
 		if i%9 == 4 {
 			c.Via = c19Vias[1+(i/9)%(len(c19Vias)-1)]
 		}
+		if i%7 == 3 {
+			c.Rest = c19Rests[(i/7)%len(c19Rests)]
+		}
 		if r.SampleN() < 5 && i%97 == 0 {
 			r.Sample(c)
 		}
@@ -503,7 +554,12 @@ var healthzVariants = []struct {
 	optFirst bool
 	// emptyFiles: the mux is built with FilesOption(empty registry)
 	emptyFiles bool
+	// rest: see decorate
+	rest string
 }{
+	{name: "config-lists-other-apis", rest: "lists-other-apis"},
+	{name: "config-lists-other-apis+own-check-rule", rest: "lists-other-apis", post: []*annotations.HttpRule{{Selector: "grpc.health.v1.Health.Check", Pattern: &annotations.HttpRule_Get{Get: "/livez"}}}, extra: "/livez"},
+	{name: "config-lists-health-api+health-on-backend", rest: "lists-first-own-api", via: "conn"},
 	{name: "option-created-before-AddHealthz", optFirst: true},
 	{name: "health-on-backend", via: "conn"},
 	{name: "health-on-backend+empty-files-registry", via: "conn", emptyFiles: true},
@@ -551,6 +607,7 @@ func healthzVariant(r *mon.Run, rng *rand.Rand, vi int) {
 			sc.Http.Rules = append(sc.Http.Rules, proto.Clone(hr).(*annotations.HttpRule))
 		}
 	}
+	decorate(sc, hv.rest, "grpc.health.v1.Health")
 	lhealth.AddHealthz(sc)
 	if hv.twice {
 		lhealth.AddHealthz(sc)
